@@ -226,6 +226,11 @@ def gen_cmd(rng, ctr, name, depth, prof):
         if rng.random() < 0.2:
             s["order"] = rng.choice([0, 1, 1, 7])
         c["subs"].append(s)
+        if rng.random() < prof.get("p_case_twin", 0.12) and "order" not in s:
+            # a sibling whose name differs only in letter case and shares the display order: a case-folding
+            # sort key would make the two collide and one of them vanish from "Commands:"
+            t = gen_cmd(rng, ctr, sn.upper(), 0, prof)
+            c["subs"].append(t)
     return c
 
 
@@ -742,6 +747,51 @@ def oracle(case, impl):
     return None
 
 
+TEMPLATES = ["{usage-heading} {usage}\n\nOPTS:\n{options}\nPOS:\n{positionals}\nSUBS:\n{subcommands}\n",
+             "{name} {version}\n{about}\n{usage}\n{all-args}{after-help}",
+             "{before-help}{about-with-newline}\n{usage-heading} {usage}\n\n{all-args}",
+             "{options}", "{positionals}\n{options}", "{subcommands}{tab}x"]
+
+
+def gen_templates(tier, rng, n):
+    """custom help templates: the per-tag writers ({options}, {positionals}, {subcommands}, {all-args}) must apply
+    the same visibility filter as the default template (implementation-only stream: templates are not modelled)"""
+    out = []
+    ctr = Ctr()
+    while len(out) < n:
+        c = gen_cmd(rng, ctr, "prog", 1, {"p_heading": 0.0, "nflag": [1, 2, 3], "nopt": [1, 2, 3], "npos": [0, 1, 2], "nsub": [0, 1, 2]})
+        for a in c["args"]:
+            if rng.random() < 0.5 and not any(x.startswith("(x-hide") for x in a["items"]) and "(flags required)" not in " ".join(a["items"]):
+                a["items"].append(rng.choice(["(x-hide)", "(x-hide-short)", "(x-hide-long)"]))
+        c["items"].append("(x-template %s)" % hexs(rng.choice(TEMPLATES)))
+        for which in ("short", "long"):
+            out.append(case_sx(c, rng.choice([0, 40, 80, 100]), which))
+    return out[:n]
+
+
+def template_oracle(case, impl):
+    if impl.startswith("PANIC"):
+        return "rendering panicked: " + impl[:200]
+    if impl.startswith(("INVALID", "harness-error", "unknown-mode", "err", "noerr")):
+        return None
+    cmd, width, which, path = decode_case(case)
+    text = impl_text(impl)
+    if text is None:
+        return None
+    use_long = which == "long"
+    for a in cmd["args"]:
+        if hidden_for_mode(a, use_long) and not a.get("required"):
+            if is_positional(a) and not a.get("hide"):
+                continue     # the usage line (part of most templates) still names a positional hidden only for one help mode
+            for mk in arg_markers(a):
+                if mk in text:
+                    return "argument %s is hidden for this help mode but %r appears (custom template)" % (a["id"], mk)
+    for sc in cmd["subs"]:
+        if sc.get("hide") and MARKER.match(sc["name"]) and sc["name"] in text:
+            return "hidden subcommand %s appears (custom template)" % sc["name"]
+    return None
+
+
 def f32_oracle(case, impl):
     if not re.match(r"f32 checked \d+ differ \(\)\s*$", impl):
         return "the f32 comparison of arg_next_line_help differs from 5*taken > 2*term_w: " + impl[:200]
@@ -795,6 +845,8 @@ def streams(tier, rng):
                describe=describe(lev, "levels")),
         Stream("help-boundary", bnd, oracle=oracle, area="help", project=project, nontrivial=nontrivial,
                describe=describe(bnd, "boundary")),
+        Stream("help-templates", gen_templates(tier, rng, 200 if q else 4000), oracle=template_oracle, area=None,
+               nontrivial=nontrivial),
         Stream("help-f32", ["(helpf32 %d %d)" % (t, w) for (t, w) in ([(300, 300)] if q else [(1200, 1200), (70000, 40)])],
                oracle=f32_oracle, area=None, nontrivial=lambda c, r: True),
     ]
